@@ -63,6 +63,8 @@ def work(task):
     try:
         E = _engine(task["root"], task)
         E.merge_enabled = task.get("merge", True)
+        E.known = task.get("known", [])
+        E.job_name = task["name"]
         E.second_solver = bool(task.get("second_solver"))
         E.second_budget = int(task.get("second_solver") or 0)
         if "fp_range" in task:
@@ -255,6 +257,8 @@ def execute(prop, tier, seed):
     repo = scratch.repo_root()
     harness = os.path.join(VERIF, prop.HARNESS)
     jobs = prop.jobs(tier)
+    from . import known as known_mod
+    known_list = known_mod.load(VERIF, pid)
     # ---- roots
     roots = {}
     if getattr(prop, "MODE", "src") == "src":
@@ -279,6 +283,7 @@ def execute(prop, tier, seed):
         t = dict(j)
         t["root"] = roots[j.get("tree", "src")]
         t["harness"] = harness
+        t["known"] = known_list
         tasks.append(t)
     # ---- run jobs (dynamic queue: shards of split jobs are re-submitted)
     nproc = int(os.environ.get("VERIF_JOBS", "0")) or min(16, os.cpu_count() or 4)
@@ -335,6 +340,7 @@ def execute(prop, tier, seed):
         for k, v in (r.get("stats") or {}).items():
             a["stats"][k] = a["stats"].get(k, 0) + v
         a["violations"].extend(r.get("violations", []))
+        a.setdefault("known_hits", []).extend(r.get("known_hits", []))
         for k, v in (r.get("reached") or {}).items():
             a["reached"][k] = a["reached"].get(k, 0) + v
         for mdl, c in zip(r.get("models", []), r.get("concrete", [])):
@@ -420,6 +426,12 @@ def execute(prop, tier, seed):
                                 + ("" if nat.get("observations") == conc.get("observations") else
                                    f" obs-native={json.dumps(nat.get('observations'))[:300]} obs-interp={json.dumps(conc.get('observations'))[:300]}"))
     log(f"[t+{time.time()-run.t0:.1f}s] native replays done ({run.native_runs})")
+    for name, a in agg.items():
+        for h in a.get("known_hits", []):
+            for k in known_list:
+                if known_mod.applies(k, name, h["label"]) and known_mod.matches(k, h["inputs"]):
+                    run.known_hits.append((k, name, h))
+                    break
     # ---- vacuity: every job must reach its end on at least one feasible path, and every expected label
     for name, a in agg.items():
         t = by_name[name]
